@@ -214,6 +214,9 @@ impl Node {
         let id = self.id.get();
         let canary = self.canary.get();
         bad(m(|m| m.destroy_begin(id, canary)));
+        if m(|m| m.stale_destruction) {
+            report::F_STALE_DESTRUCTION.store(true, Relaxed);
+        }
         self.canary.set(CANARY_DEAD);
         st(St::dtor_events, 1);
         st(St::p_destroyed, 1);
@@ -617,6 +620,7 @@ fn exec_inner(op: &Op, dying: Option<&Node>) -> bool {
             m(|m| {
                 let o = m.ph[&h];
                 m.obj_mut(o).selfsame += 1;
+                m.obj_mut(o).had_table = true;
             });
             st(St::op_selfsame, 1);
             st(St::f_same_handle_self_adopt, 1);
@@ -759,6 +763,7 @@ fn exec_inner(op: &Op, dying: Option<&Node>) -> bool {
                         ob.epoch += 1;
                         ob.ever_recorded = false;
                         ob.selfsame = 0;
+                        ob.had_table = false;
                         m.old_allocs.push(OldAlloc { addr, obj: o, epoch });
                         m.ledger_purge(o);
                         m.loose.insert(v, o);
@@ -842,6 +847,7 @@ fn exec_inner(op: &Op, dying: Option<&Node>) -> bool {
                     ob.addr = addr;
                     ob.ever_recorded = false;
                     ob.selfsame = 0;
+                        ob.had_table = false;
                     let ne = ob.epoch;
                     m.old_allocs.push(OldAlloc { addr: old_addr, obj: o, epoch });
                     m.ledger_purge(o);
@@ -1332,7 +1338,7 @@ fn check_memory() {
         if ob.rc && (ob.alive || ob.zombie) {
             all_dead = false;
             expected_rcbox_live += 1;
-            if ob.ever_recorded || ob.selfsame > 0 {
+            if ob.had_table {
                 tables_allowed += 1;
             }
             if state != BlockState::Live {
